@@ -290,7 +290,7 @@ static void init_template(void)
 struct sdesc { int frame; uint8_t cb; int16_t prio; uint8_t p1, p2; uint16_t flags; };
 struct shape { int nframes, nitems, trailing_endframe; uint16_t p3; struct sdesc d[8]; };
 #define DT (TDMA_IFLG_TPU | TDMA_IFLG_DSP)
-#define NSHAPES 8
+#define NSHAPES 9
 static const struct shape shapes[NSHAPES] = {
 	/* 0: one frame, one item */
 	{ 1, 1, 0, 0xB0A1, { { 0, CB_LOG1, 0, 0x21, 0x01, 0 } } },
@@ -311,6 +311,9 @@ static const struct shape shapes[NSHAPES] = {
 	/* 7: five frames of which the second and third are idle (three end-of-frame markers in a row), as in the
 	 * firmware's power-measurement / RACH sets; trailing marker (set sweep only) */
 	{ 5, 4, 1, 0xB7A8, { { 0, CB_LOG1, 0, 0x3D, 0x1D, DT }, { 3, CB_LOG2, 4, 0x3E, 0x1E, 0 }, { 3, CB_LOG1, -4, 0x3F, 0x1F, 0 }, { 4, CB_LOG2, 0, 0x20, 0x20, 0 } } },
+	/* 8: two frames (2 + 1), scheduled with p3 = 0 while the hand-built template items carry non-zero, pairwise
+	 * different p3 values (as every template here does): the callbacks must get 0, the argument */
+	{ 2, 3, 0, 0x0000, { { 0, CB_LOG1, 1, 0x4A, 0x2A, 0 }, { 0, CB_LOG2, -1, 0x4B, 0x2B, DT }, { 1, CB_LOG1, 0, 0x4C, 0x2C, 0 } } },
 };
 /* the array handed to tdma_schedule_set() is generated from the description with the header's macros */
 static struct tdma_sched_item setarr[NSHAPES][20];
@@ -325,7 +328,7 @@ static void build_sets(void)
 			while (f < sh->d[i].frame) { struct tdma_sched_item e = SCHED_END_FRAME(); setarr[s][n++] = e; f++; }
 			struct tdma_sched_item it = SCHED_ITEM(cbtab[sh->d[i].cb], sh->d[i].prio, sh->d[i].p1, sh->d[i].p2);
 			it.flags = sh->d[i].flags;
-			it.p3 = 0x7777;      /* must be replaced by the p3 argument */
+			it.p3 = 0x7701 + 0x0111 * i;   /* the template's own p3 (non-zero, different per item) must never reach a callback */
 			setarr[s][n++] = it;
 		}
 		if (sh->trailing_endframe) { struct tdma_sched_item e = SCHED_END_FRAME(); setarr[s][n++] = e; f++; }
